@@ -187,17 +187,15 @@ Theorem C06_instream_fine_sediment_R : forall (p : list R) fp,
 Proof. exact instream_fine_sediment_kernel_split_R. Qed.
 
 (* ------------------------------------------------------------------ StorageTrapAll *)
-(** both segments non-empty (the kernel panics on an empty series); the restarted run adds the
-    returned stored mass 0 to its first input: exact when x + 0 = x *)
+(** every cut, empty segments included (since fix b73cc97 an empty series carries the stored mass
+    unchanged); the restarted run adds the returned stored mass 0 to its first input: exact when x + 0 = x *)
 Theorem C06_storage_trap_all_split_partial : forall (T : Type) (A : Arith T) (p s0 : list T) ins n,
   (forall x : T, add x zero = x) ->
-  (forall a r, ins = a :: r -> 0 < n < length a) ->
   split_at (storage_trap_all_kernel p) s0 ins n.
 Proof. exact (@storage_trap_all_kernel_split_partial). Qed.
 Print Assumptions C06_storage_trap_all_split_partial.
 
 Theorem C06_storage_trap_all_R : forall (p s0 : list R) ins n,
-  (forall a r, ins = a :: r -> 0 < n < length a) ->
   split_at (storage_trap_all_kernel (A := RArith) p) s0 ins n.
 Proof. exact storage_trap_all_kernel_split_R. Qed.
 
@@ -208,11 +206,10 @@ Proof. exact storage_trap_all_kernel_split_float_refuted. Qed.
 Print Assumptions C06_storage_trap_all_float_refuted.
 
 (* ------------------------------------------------------------------ InstreamDissolvedNutrientDecay *)
-(** decay OFF (LumpedConstituentTransport), both segments non-empty *)
+(** decay OFF (LumpedConstituentTransport): every cut, empty segments included (fix b73cc97) *)
 Theorem C06_instream_dissolved_nutrient_nodecay_split_partial :
   forall (T : Type) (A : Arith T) (p s0 : list T) ins n doDecay psl dp,
   dn_params_of p = Some (doDecay, psl, dp) -> ltb doDecay (of_q 1 2) = true ->
-  (forall up lat vol r, ins = up :: lat :: vol :: r -> 0 < n < length vol) ->
   split_at (instream_dissolved_nutrient_decay_kernel p) s0 ins n.
 Proof. exact (@instream_dissolved_nutrient_nodecay_split_partial). Qed.
 Print Assumptions C06_instream_dissolved_nutrient_nodecay_split_partial.
